@@ -360,7 +360,8 @@ def run(rep):
                 nb += 1
                 chain = builder_chain(fields["0"])
                 names = [c[0] for c in chain]
-                rep.check("match_kind" not in names, "AHO-OVERLAP", "AHO-OVERLAP/kind/" + tag, n["sp"], "automaton uses the standard match kind (required for overlapping search)", str(names))
+                # find_overlapping_iter refuses (panics on) an automaton with a non-standard match kind or an anchored-only start kind
+                rep.check("match_kind" not in names and "start_kind" not in names, "AHO-OVERLAP", "AHO-OVERLAP/kind/" + tag, n["sp"], "automaton keeps the default match kind and start kind (required for the unanchored overlapping search the solver runs)", str(names))
                 ci = [c for c in chain if c[0] == "ascii_case_insensitive"]
                 flag = fields["2"]
                 if not ci:
